@@ -329,6 +329,48 @@ theorem rtbNum_first_step_nodec (d tol : ℝ) (loss : List ℝ) :
   intro x hx
   exact (relNoDec1_none d x).mpr (h x hx)
 
+/-! ## hardening: re-use, per-call independence, item-wise = batched -/
+
+/-- **Object re-use / statelessness across `reset`.** Whatever happened to a stepper before (`pre`: any history of
+steps and resets, on any state `s`, with batches of any sizes), after a `reset` the steps `post` (batches of any,
+even changing, sizes) leave it exactly in the state a freshly constructed stepper reaches on `post` alone. -/
+theorem rtb_history_since_last_reset (c : Cfg) (d tol : ℝ) (s : RtbSt ℝ) (pre : List (Ev ℝ))
+    (post : List (List ℝ)) :
+    (pre ++ Ev.reset :: post.map Ev.step).foldl (rtbEv c d tol) s
+      = (post.map Ev.step).foldl (rtbEv c d tol) RtbSt.init := by
+  rw [List.foldl_append, List.foldl_cons]
+  rfl
+
+/-- **Item-wise = batched (mixed regimes).** The decisions `ReduceToBason.step` takes on a batch are the
+conjunctions of the decisions on each element alone: all elements below `tol`; all elements (paired with their own
+previous value, or with `+inf` after a reset) failed to decrease. -/
+theorem rtb_batch_is_conjunction (d tol : ℝ) (prev loss : List ℝ) :
+    (belowTol tol loss = true ↔ ∀ x ∈ loss, belowTol tol [x] = true) ∧
+    (relNoDec d none loss = true ↔ ∀ x ∈ loss, relNoDec d none [x] = true) ∧
+    (relNoDec d (some prev) loss = true ↔
+      ∀ p ∈ List.zip prev loss, relNoDec d (some [p.1]) [p.2] = true) := by
+  refine ⟨?_, ?_, ?_⟩
+  · simp [belowTol]
+  · simp [relNoDec]
+  · simp [relNoDec]
+
+/-- **Independence from what a controller does not read**: StopOnPlateau ignores `below`, ReduceToBason ignores
+`rej` — two observation streams that differ only there give identical runs from any state. -/
+theorem step_ignores_foreign_field (c : Cfg) (s : St) (obs obs' : Nat → Obs) (n : Nat) :
+    ((∀ i, (obs i).nodec = (obs' i).nodec ∧ (obs i).rej = (obs' i).rej) →
+      run (sopStep c) s obs n = run (sopStep c) s obs' n) ∧
+    ((∀ i, (obs i).nodec = (obs' i).nodec ∧ (obs i).below = (obs' i).below) →
+      run (rtbStep c) s obs n = run (rtbStep c) s obs' n) := by
+  constructor
+  · intro h
+    induction n with
+    | zero => rfl
+    | succ n ih => simp only [run, ih, sopStep, (h n).1, (h n).2]
+  · intro h
+    induction n with
+    | zero => rfl
+    | succ n ih => simp only [run, ih, rtbStep, (h n).1, (h n).2]
+
 /-! ## what the driver executes is the model the theorems are about -/
 
 /-- the executable trace on a list is the sequence of `run` states -/
